@@ -31,6 +31,8 @@ STRENGTHENED = {
     "C17-f": "nodata passed as argument while the array carries a different nodata attribute ('both') also for mean_grp",
     "C19-f": "numeric axes starting below zero, so that the label 0 lies inside, at the end of, or off the axis",
     "C20-e": "daily labels in int16 / uint8 / uint16 / int8 arrays through the accessor (immutability was already checked, only int32 had been generated)"}
+SUPERSEDED = {
+    "C15-c": "superseded: the patch applied to hdc-algo 26e16c3 (where it was confirmed and caught); after the repair 1d112b8 (float autocorr subtracts the first valid value) it no longer applies, and the failure mode it seeded (float32 products of large values) cannot be re-created on the repaired code because the products are formed from shifted, small values"}
 out_root = "/verif/seeded"
 os.makedirs(out_root, exist_ok=True)
 rows = []
@@ -68,6 +70,8 @@ for root, variants in (("/tmp/seeds", ("a", "b")), ("/tmp/seeds2", ("c", "d")), 
              "caught_by": [l.strip() for l in ev["check_output"] if "sub-check" in l][:3]}
         if key in STRENGTHENED:
             m["strengthening_prompted_by_this_seed"] = STRENGTHENED[key]
+        if key in SUPERSEDED:
+            m["status"] = SUPERSEDED[key]
         json.dump(m, open(dst + "/meta.json", "w"), indent=1)
         rows.append((key, m["check_result_first_evaluation"], ev["check"]))
 for r in rows:
